@@ -1113,6 +1113,89 @@ Definition gap_change (f f' : fdl) : Prop :=
   (f_state f' = ClaimToken StepSecondToken /\ f_gap f' = GapDoPoll (ts f)) \/
   (f_state f' = Offline /\ f_conn f' = ConnOffline).
 
+(* ---- the GAP sweep as seen poll by poll (used by Proofs/C12OracleSound.v) ----
+   pend s = 1: the next token transmission of a visit out of s is preceded by a GAP step of the visit;
+   pend s = 0: the GAP step of this visit is done (AwaitStatusResponse, PassToken{do_gap: No}) or the
+   station scans the GAP after a claim. *)
+Definition pend (s : state) : Z :=
+  match s with
+  | AwaitStatusResponse _ | PassToken false _ | ClaimToken StepScan | ClaimToken (StepScanAwaitResponse _) => 0
+  | _ => 1
+  end.
+
+Definition visit_state (s : state) : Prop :=
+  kind_of s = KPassToken \/ kind_of s = KAwaitStatusResponse \/ in_use s.
+
+Definition nosend_ext (calls calls' : list call) : Prop := exists l, calls' = calls ++ l /\ Forall no_send l.
+
+(* a slot time shorter than the synchronisation pause: excluded by the parameter builder *)
+Definition short_slot (f : fdl) : Prop := slot_time (f_p f) < p_bits_to_time (f_p f) sync_pause_bits.
+
+(* steps after which nothing is claimed about the sweep: the station is (or was) offline, goes back to
+   listening, or transmits its claim token *)
+Definition sw_reset (f f' : fdl) (txb : option bytes) : Prop :=
+  kind_of (f_state f) = KOffline \/ kind_of (f_state f) = KPassiveIdle \/
+  kind_of (f_state f') = KOffline \/ kind_of (f_state f') = KListenToken \/
+  (txb = Some (encode_token (ts f) (ts f)) /\
+   (kind_of (f_state f) = KListenToken \/ kind_of (f_state f) = KActiveIdle \/ kind_of (f_state f) = KClaimToken) /\
+   f_gap f' = GapDoPoll (ts f) /\ kind_of (f_state f') = KClaimToken) \/
+  short_slot f.
+
+(* the transmission of a step that is neither a GAP request nor the token of a visit *)
+Definition sw_qtx (f : fdl) (calls' : list call) (txb : option bytes) : Prop :=
+  txb = None \/
+  (exists wire cs i hp er, txb = Some wire /\ calls' = cs ++ [CallTransmit i hp (Some (wire, er))]) \/
+  (exists src st, txb = Some (reply_wire src (ts f) st) /\
+     (kind_of (f_state f) = KListenToken \/ kind_of (f_state f) = KActiveIdle)) \/
+  (exists da, txb = Some (encode_token da (ts f)) /\ kind_of (f_state f) = KCheckTokenPass).
+
+Definition sw_rel (f f' : fdl) (calls calls' : list call) (txb : option bytes) : Prop :=
+  sw_reset f f' txb \/
+  (exists a, txb = Some (sr_wire a (ts f)) /\ nosend_ext calls calls' /\
+     gap_visit_step f = Ok (GapDoPoll a) /\ f_gap f' = GapDoPoll a /\ pend (f_state f') = 0 /\ f_ring f' = f_ring f /\
+     (kind_of (f_state f) = KClaimToken -> exists cur, f_gap f = GapDoPoll cur)) \/
+  (exists da, txb = Some (encode_token da (ts f)) /\ nosend_ext calls calls' /\
+     visit_state (f_state f) /\ pend (f_state f') = 1 /\
+     ((pend (f_state f) = 1 /\ gap_visit_step f = Ok (f_gap f') /\ exists n, f_gap f' = GapWaiting n) \/
+      (pend (f_state f) = 0 /\ f_gap f' = f_gap f))) \/
+  (sw_qtx f calls' txb /\
+   ((f_gap f' = f_gap f /\ pend (f_state f) <= pend (f_state f')) \/
+    (pend (f_state f) = 0 /\ pend (f_state f') = 0 /\ gap_visit_step f = Ok (f_gap f') /\
+     (exists cur, f_gap f = GapDoPoll cur) /\ (exists n, f_gap f' = GapWaiting n) /\ f_ring f' = f_ring f))).
+
+Lemma sw_rel_pre f0 f f' calls0 calls calls' txb pre :
+  f_p f = f_p f0 -> f_ring f = f_ring f0 -> f_state f = f_state f0 -> f_gap f = f_gap f0 ->
+  calls = calls0 ++ pre -> Forall no_send pre ->
+  sw_rel f f' calls calls' txb -> sw_rel f0 f' calls0 calls' txb.
+Proof.
+  intros Hp Hr Hs Hg -> Hpre.
+  assert (Hn : nosend_ext (calls0 ++ pre) calls' -> nosend_ext calls0 calls').
+  { intros [l [Hl Hf]]. exists (pre ++ l). split; [rewrite Hl, app_assoc; reflexivity|apply Forall_app; split; assumption]. }
+  unfold sw_rel, sw_reset, sw_qtx, short_slot, visit_state, in_use.
+  rewrite (gap_visit_step_ext f f0 Hp Hr Hg). unfold ts. rewrite Hp, Hr, Hs, Hg.
+  intros [H|[[a H]|[[da H]|H]]].
+  - left. exact H.
+  - right. left. exists a. destruct H as [H1 [H2 H3]]. split; [exact H1|]. split; [exact (Hn H2)|exact H3].
+  - right. right. left. exists da. destruct H as [H1 [H2 H3]]. split; [exact H1|]. split; [exact (Hn H2)|exact H3].
+  - right. right. right. exact H.
+Qed.
+
+Lemma sw_rel_silent f f' calls calls' : f_state f' = f_state f -> f_gap f' = f_gap f -> sw_rel f f' calls calls' None.
+Proof.
+  intros Hs Hg. right. right. right. split; [left; reflexivity|]. left. split; [exact Hg|rewrite Hs; lia].
+Qed.
+
+Lemma sw_rel_quiet f f' calls calls' : pend (f_state f) <= pend (f_state f') -> f_gap f' = f_gap f -> sw_rel f f' calls calls' None.
+Proof.
+  intros Hs Hg. right. right. right. split; [left; reflexivity|]. left. split; assumption.
+Qed.
+
+Lemma nosend_ext_same calls calls' : calls' = calls -> nosend_ext calls calls'.
+Proof. intros ->. exists []. split; [symmetry; apply app_nil_r|constructor]. Qed.
+
+Lemma pend_range s : 0 <= pend s <= 1.
+Proof. destruct s as [ | | | | |[ | | | ]| |[|] ?| | ]; cbn; lia. Qed.
+
 Definition lba_le (f : fdl) (now : Z) : Prop := forall l, f_lba f = Some l -> l <= now.
 
 Lemma mark_rx_lba f now : lba_le f now -> f_lba (mark_rx f now) = Some now.
@@ -1130,7 +1213,8 @@ Definition facts_l (L : Prop) (f f' : fdl) (w w' : W) (now : Z) : Prop :=
   (forall src, marker (f_state f') = Some src ->
      marker (f_state f) = Some src \/
      (last_request (w_rx w) (ts f) src /\ w_rx w' = [] /\ f_pending f' = 0%nat /\ (L -> f_lba f' = Some now))) /\
-  (f_gap f' = f_gap f \/ gap_change f f').
+  ((f_gap f' = f_gap f \/ gap_change f f') /\
+   (w_tx w = None -> sw_rel f f' (w_calls w) (w_calls w') (w_tx w'))).
 
 Definition facts (f f' : fdl) (w w' : W) (now : Z) : Prop := facts_l (lba_le f now) f f' w w' now.
 
@@ -1161,7 +1245,9 @@ Proof.
   - split.
     + intros src Hm. rewrite <- Hs, <- Hx. unfold ts. rewrite <- Hp.
       destruct (F3 src Hm) as [X|[X1 [X2 [X3 X4]]]]; [left; exact X|right]. repeat (split; [assumption|]). intros H0. exact (X4 (HL H0)).
-    + rewrite <- Hg. destruct F4 as [X|X]; [left; exact X|right; exact (gap_change_pre _ _ _ Hp Hr Hs Hg X)].
+    + destruct F4 as [F4 F5]. split.
+      * rewrite <- Hg. destruct F4 as [X|X]; [left; exact X|right; exact (gap_change_pre _ _ _ Hp Hr Hs Hg X)].
+      * intros Hn. rewrite <- Ht in Hn. rewrite <- Hc. eapply sw_rel_pre; [exact Hp|exact Hr|exact Hs|exact Hg|symmetry; apply app_nil_r|constructor|exact (F5 Hn)].
 Qed.
 
 Lemma facts_pre f0 f f' (w0 w w' : W) now :
@@ -1198,21 +1284,29 @@ Proof.
   destruct H as [dg [att [Es [Hp [Hc [Hca [Hap [Hrx Hcases]]]]]]]].
   unfold facts, facts_l. split; [exact Hp|].
   destruct Hcases as [[T [S [G R]]]|[[-> [a [Hstep [G [S [R [T0 T]]]]]]]|[G [T0 [T [Wi St]]]]]].
-  - split; [intros Hn; left; rewrite T; exact Hn|]. split; [intros src Hm; left; rewrite <- S; exact Hm|left; exact G].
+  - split; [intros Hn; left; rewrite T; exact Hn|]. split; [intros src Hm; left; rewrite <- S; exact Hm|].
+    split; [left; exact G|]. intros Hn. rewrite T, Hn. apply sw_rel_silent; assumption.
   - split.
     + intros _. right. exists (sr_wire a (ts f)). split; [exact T|]. right. split; [apply quiet_calls_same; exact Hca|]. right. left.
       exists a. destruct (gap_visit_step_in_gap f a Hstep) as [I1 I2].
       repeat (split; [assumption || reflexivity|]). left. split; [exact S|left; exists att; exact Es].
     + split; [intros src Hm; rewrite S in Hm; discriminate Hm|].
-      right. left. split; [left; exists att; exact Es|]. rewrite G. exact Hstep.
+      split; [right; left; split; [left; exists att; exact Es|]; rewrite G; exact Hstep|].
+      intros _. rewrite T. right. left. exists a. split; [reflexivity|]. split; [apply nosend_ext_same; exact Hca|].
+      split; [exact Hstep|]. split; [exact G|]. split; [rewrite S; reflexivity|]. split; [exact R|]. rewrite Es. intros C; discriminate C.
   - split.
     + intros _. right. eexists. split; [exact T|]. right. split; [apply quiet_calls_same; exact Hca|]. left.
       eexists. split; [reflexivity|]. right. split; [|left; rewrite Es; reflexivity].
       destruct St as [[_ S]|[_ S]]; [left; exact S|right; exists att; exact S].
     + split; [intros src Hm; destruct St as [[_ S]|[_ S]]; rewrite S in Hm; discriminate Hm|].
+      assert (Hp1 : pend (f_state f') = 1) by (destruct St as [[_ S]|[_ S]]; rewrite S; reflexivity).
       destruct dg.
-      * destruct G as [n [Hstep G]]. right. left. split; [left; exists att; exact Es|]. rewrite G. exact Hstep.
-      * left. exact G.
+      * destruct G as [n [Hstep G]]. split; [right; left; split; [left; exists att; exact Es|]; rewrite G; exact Hstep|].
+        intros _. rewrite T. right. right. left. eexists. split; [reflexivity|]. split; [apply nosend_ext_same; exact Hca|].
+        split; [left; rewrite Es; reflexivity|]. split; [exact Hp1|]. left. split; [rewrite Es; reflexivity|]. split; [rewrite G; exact Hstep|exists n; exact G].
+      * split; [left; exact G|].
+        intros _. rewrite T. right. right. left. eexists. split; [reflexivity|]. split; [apply nosend_ext_same; exact Hca|].
+        split; [left; rewrite Es; reflexivity|]. split; [exact Hp1|]. right. split; [rewrite Es; reflexivity|exact G].
 Qed.
 
 Lemma do_await_status_response_facts f now (w : W) f' w' :
@@ -1223,15 +1317,22 @@ Proof.
   unfold facts, facts_l. split; [exact Hp|].
   assert (HM : marker (f_state f) = None) by (rewrite Es; reflexivity).
   destruct Hcases as [[_ [T [S R]]]|[[t [_ [_ [T [S _]]]]]|[[t [_ [_ [T [S R]]]]]|[_ [[T [S R]]|[T0 [T [Wi St]]]]]]]].
-  - split; [intros Hn; left; rewrite T; exact Hn|]. split; [intros src Hm; left; rewrite <- S; exact Hm|left; exact Hg].
-  - split; [intros Hn; left; rewrite T; exact Hn|]. split; [intros src Hm; rewrite S in Hm; discriminate Hm|left; exact Hg].
-  - split; [intros Hn; left; rewrite T; exact Hn|]. split; [intros src Hm; rewrite S in Hm; discriminate Hm|left; exact Hg].
-  - split; [intros Hn; left; rewrite T; exact Hn|]. split; [intros src Hm; rewrite S in Hm; discriminate Hm|left; exact Hg].
+  - split; [intros Hn; left; rewrite T; exact Hn|]. split; [intros src Hm; left; rewrite <- S; exact Hm|].
+    split; [left; exact Hg|]. intros Hn. rewrite T, Hn. apply sw_rel_silent; assumption.
+  - split; [intros Hn; left; rewrite T; exact Hn|]. split; [intros src Hm; rewrite S in Hm; discriminate Hm|].
+    split; [left; exact Hg|]. intros Hn. rewrite T, Hn. apply sw_rel_quiet; [rewrite S, Es; cbn; lia|exact Hg].
+  - split; [intros Hn; left; rewrite T; exact Hn|]. split; [intros src Hm; rewrite S in Hm; discriminate Hm|].
+    split; [left; exact Hg|]. intros Hn. rewrite T, Hn. apply sw_rel_quiet; [rewrite S, Es; cbn; lia|exact Hg].
+  - split; [intros Hn; left; rewrite T; exact Hn|]. split; [intros src Hm; rewrite S in Hm; discriminate Hm|].
+    split; [left; exact Hg|]. intros Hn. rewrite T, Hn. apply sw_rel_quiet; [rewrite S, Es; cbn; lia|exact Hg].
   - split.
     + intros _. right. eexists. split; [exact T|]. right. split; [apply quiet_calls_same; exact Hca|]. left.
       eexists. split; [reflexivity|]. right. split; [|right; left; rewrite Es; reflexivity].
       destruct St as [[_ S]|[_ S]]; [left; exact S|right; exists AttFirst; exact S].
-    + split; [intros src Hm; destruct St as [[_ S]|[_ S]]; rewrite S in Hm; discriminate Hm|left; exact Hg].
+    + split; [intros src Hm; destruct St as [[_ S]|[_ S]]; rewrite S in Hm; discriminate Hm|].
+      split; [left; exact Hg|]. intros _. rewrite T. right. right. left. eexists. split; [reflexivity|].
+      split; [apply nosend_ext_same; exact Hca|]. split; [right; left; rewrite Es; reflexivity|].
+      split; [destruct St as [[_ S]|[_ S]]; rewrite S; reflexivity|]. right. split; [rewrite Es; reflexivity|exact Hg].
 Qed.
 
 Lemma do_claim_token_facts f now (w : W) f' w' :
@@ -1241,6 +1342,49 @@ Proof.
   destruct H as [st0 [Es [Hp [Hc [Hca [Hap Hcases]]]]]].
   unfold facts, facts_l. split; [exact Hp|].
   assert (HG : f_gap f' = f_gap f \/ gap_change f f') by (right; right; left; rewrite Es; reflexivity).
+  assert (HSW : w_tx w = None -> sw_rel f f' (w_calls w) (w_calls w') (w_tx w')).
+  { intros Hn.
+    assert (Hstep : forall cur g, f_gap f = GapDoPoll cur -> next_gap_poll f cur = Ok g -> gap_visit_step f = Ok g)
+      by (intros cur g E N; unfold gap_visit_step; rewrite E; exact N).
+    assert (Hscan0 :
+     ( (w_tx w' = w_tx w /\ f_state f' = f_state f /\ f_gap f' = f_gap f)
+      \/ (w_tx w' = w_tx w /\ (exists n, f_gap f = GapWaiting n) /\ f_gap f' = f_gap f /\ f_state f' = PassToken false AttFirst)
+      \/ (w_tx w' = w_tx w /\ exists cur, f_gap f = GapDoPoll cur /\ next_gap_poll f cur = Ok (GapWaiting 0) /\
+            f_gap f' = GapWaiting 0 /\ f_state f' = f_state f)
+      \/ (exists cur a, f_gap f = GapDoPoll cur /\ next_gap_poll f cur = Ok (GapDoPoll a) /\ f_gap f' = GapDoPoll a /\
+            f_state f' = ClaimToken (StepScanAwaitResponse a) /\ w_tx w = None /\ w_tx w' = Some (sr_wire a (ts f))) ) ->
+     f_ring f' = f_ring f -> pend (f_state f) = 0 ->
+     sw_rel f f' (w_calls w) (w_calls w') (w_tx w')).
+    { intros Hsc Hr Hp0.
+      destruct Hsc as [[T [S G]]|[[T [_ [G S]]]|[[T [cur [G0 [N [G S]]]]]|[cur [a [G0 [N [G [S [T0 T]]]]]]]]]].
+      - rewrite T, Hn. apply sw_rel_silent; assumption.
+      - rewrite T, Hn. apply sw_rel_quiet; [rewrite S, Hp0; cbn; lia|exact G].
+      - rewrite T, Hn. right. right. right. split; [left; reflexivity|]. right.
+        split; [exact Hp0|]. split; [rewrite S; exact Hp0|]. split; [rewrite G; exact (Hstep _ _ G0 N)|].
+        split; [exists cur; exact G0|]. split; [exists 0; exact G|exact Hr].
+      - rewrite T. right. left. exists a. split; [reflexivity|]. split; [apply nosend_ext_same; exact Hca|].
+        split; [exact (Hstep _ _ G0 N)|]. split; [exact G|]. split; [rewrite S; reflexivity|]. split; [exact Hr|]. intros _. exists cur. exact G0. }
+    destruct st0 as [ | | |a0].
+    - destruct Hcases as [Hrx [[T [S [G R]]]|[T0 [T [S [G R]]]]]].
+      + rewrite T, Hn. apply sw_rel_silent; assumption.
+      + rewrite T. left. right. right. right. right. left. split; [reflexivity|]. split; [right; right; rewrite Es; reflexivity|]. split; [exact G|rewrite S; reflexivity].
+    - destruct Hcases as [Hrx [[T [S [G R]]]|[T0 [T [S [G R]]]]]].
+      + rewrite T, Hn. apply sw_rel_silent; assumption.
+      + rewrite T. left. right. right. right. right. left. split; [reflexivity|]. split; [right; right; rewrite Es; reflexivity|]. split; [exact G|rewrite S; reflexivity].
+    - destruct Hcases as [Hr [Hrx Hsc]]. apply (Hscan0 Hsc Hr). rewrite Es. reflexivity.
+    - destruct Hcases as [Hne [Hg0 [rest [received [Hrcv [Hrx Hcs]]]]]].
+      assert (Hp0 : pend (f_state f) = 0) by (rewrite Es; reflexivity).
+      destruct Hcs as [[_ [T [S [G R]]]]|[[t [_ [_ [T [S [G _]]]]]]|[[t [_ [_ [T [S [G _]]]]]]|[_ [R Hsc]]]]].
+      + rewrite T, Hn. apply sw_rel_silent; assumption.
+      + rewrite T, Hn. apply sw_rel_quiet; [rewrite S, Hp0; cbn; lia|exact G].
+      + rewrite T, Hn. apply sw_rel_quiet; [rewrite S, Hp0; cbn; lia|exact G].
+      + destruct Hsc as [[T [S G]]|[[T [N [G S]]]|[a [N [G [S [T0 T]]]]]]].
+        * rewrite T, Hn. apply sw_rel_quiet; [rewrite S, Hp0; cbn; lia|exact G].
+        * rewrite T, Hn. right. right. right. split; [left; reflexivity|]. right.
+          split; [exact Hp0|]. split; [rewrite S; reflexivity|]. split; [rewrite G; exact (Hstep _ _ Hg0 N)|].
+          split; [exists a0; exact Hg0|]. split; [exists 0; exact G|exact R].
+        * rewrite T. right. left. exists a. split; [reflexivity|]. split; [apply nosend_ext_same; exact Hca|].
+          split; [exact (Hstep _ _ Hg0 N)|]. split; [exact G|]. split; [rewrite S; reflexivity|]. split; [exact R|]. intros _. exists a0. exact Hg0. }
   assert (Hscan : forall (P : Prop),
      ( (w_tx w' = w_tx w /\ f_state f' = f_state f /\ f_gap f' = f_gap f)
       \/ (w_tx w' = w_tx w /\ (exists n, f_gap f = GapWaiting n) /\ f_gap f' = f_gap f /\ f_state f' = PassToken false AttFirst)
@@ -1263,25 +1407,25 @@ Proof.
       repeat (split; [assumption || reflexivity|]). right. split; [exact S|exact Hst]. }
   destruct st0 as [ | | |a0].
   - destruct Hcases as [Hrx [[T [S [G R]]]|[T0 [T [S [G R]]]]]].
-    + split; [intros Hn; left; rewrite T; exact Hn|]. split; [intros src Hm; left; rewrite <- S; exact Hm|exact HG].
-    + split; [|split; [intros src Hm; rewrite S in Hm; discriminate Hm|exact HG]].
+    + split; [intros Hn; left; rewrite T; exact Hn|]. split; [intros src Hm; left; rewrite <- S; exact Hm|exact (conj HG HSW)].
+    + split; [|split; [intros src Hm; rewrite S in Hm; discriminate Hm|exact (conj HG HSW)]].
       intros _. right. eexists. split; [exact T|]. right. split; [apply quiet_calls_same; exact Hca|]. left.
       eexists. split; [reflexivity|]. left. split; [reflexivity|]. left. split; [exact S|right; exact Es].
   - destruct Hcases as [Hrx [[T [S [G R]]]|[T0 [T [S [G R]]]]]].
-    + split; [intros Hn; left; rewrite T; exact Hn|]. split; [intros src Hm; left; rewrite <- S; exact Hm|exact HG].
-    + split; [|split; [intros src Hm; rewrite S in Hm; discriminate Hm|exact HG]].
+    + split; [intros Hn; left; rewrite T; exact Hn|]. split; [intros src Hm; left; rewrite <- S; exact Hm|exact (conj HG HSW)].
+    + split; [|split; [intros src Hm; rewrite S in Hm; discriminate Hm|exact (conj HG HSW)]].
       intros _. right. eexists. split; [exact T|]. right. split; [apply quiet_calls_same; exact Hca|]. left.
       eexists. split; [reflexivity|]. left. split; [reflexivity|]. right. split; [exact S|exact Es].
-  - destruct Hcases as [Hr [Hrx Hsc]]. destruct (Hscan True Hsc Hr (or_introl Es)) as [X Y]. split; [exact X|]. split; [intros src Hm; left; exact (Y src Hm)|exact HG].
+  - destruct Hcases as [Hr [Hrx Hsc]]. destruct (Hscan True Hsc Hr (or_introl Es)) as [X Y]. split; [exact X|]. split; [intros src Hm; left; exact (Y src Hm)|exact (conj HG HSW)].
   - destruct Hcases as [Hne [Hg0 [rest [received [Hrcv [Hrx Hcs]]]]]].
     destruct Hcs as [[_ [T [S [G R]]]]|[[t [_ [_ [T [S _]]]]]|[[t [_ [_ [T [S _]]]]]|[_ [R Hsc]]]]].
-    + split; [intros Hn; left; rewrite T; exact Hn|]. split; [intros src Hm; left; rewrite <- S; exact Hm|exact HG].
-    + split; [intros Hn; left; rewrite T; exact Hn|]. split; [intros src Hm; rewrite S in Hm; discriminate Hm|exact HG].
-    + split; [intros Hn; left; rewrite T; exact Hn|]. split; [intros src Hm; rewrite S in Hm; discriminate Hm|exact HG].
+    + split; [intros Hn; left; rewrite T; exact Hn|]. split; [intros src Hm; left; rewrite <- S; exact Hm|exact (conj HG HSW)].
+    + split; [intros Hn; left; rewrite T; exact Hn|]. split; [intros src Hm; rewrite S in Hm; discriminate Hm|exact (conj HG HSW)].
+    + split; [intros Hn; left; rewrite T; exact Hn|]. split; [intros src Hm; rewrite S in Hm; discriminate Hm|exact (conj HG HSW)].
     + destruct Hsc as [[T [S G]]|[[T [N [G S]]]|[a [N [G [S [T0 T]]]]]]].
-      * split; [intros Hn; left; rewrite T; exact Hn|]. split; [intros src Hm; rewrite S in Hm; discriminate Hm|exact HG].
-      * split; [intros Hn; left; rewrite T; exact Hn|]. split; [intros src Hm; rewrite S in Hm; discriminate Hm|exact HG].
-      * split; [|split; [intros src Hm; rewrite S in Hm; discriminate Hm|exact HG]].
+      * split; [intros Hn; left; rewrite T; exact Hn|]. split; [intros src Hm; rewrite S in Hm; discriminate Hm|exact (conj HG HSW)].
+      * split; [intros Hn; left; rewrite T; exact Hn|]. split; [intros src Hm; rewrite S in Hm; discriminate Hm|exact (conj HG HSW)].
+      * split; [|split; [intros src Hm; rewrite S in Hm; discriminate Hm|exact (conj HG HSW)]].
         intros _. right. eexists. split; [exact T|]. right. split; [apply quiet_calls_same; exact Hca|]. right. left.
         exists a. destruct (next_gap_poll_in_gap' f a0 a N Hg0) as [I1 I2].
         repeat (split; [assumption || reflexivity|]). right. split; [exact S|right; exists a0; exact Es].
@@ -1312,11 +1456,13 @@ Proof.
     destruct Hcases as [Hrx [[T [S [G R]]]|[T0 [T [S [G R]]]]]].
     + split; [|rewrite S; reflexivity]. unfold facts, facts_l. split; [rewrite Hp; exact Hp0|].
       split; [intros Hn; left; rewrite T; exact Hn|]. split; [intros src Hm; rewrite S in Hm; discriminate Hm|].
-      left. rewrite G. exact Hg0.
+      split; [left; rewrite G; exact Hg0|]. intros Hn. rewrite T, Hn. apply sw_rel_quiet; [|rewrite G; exact Hg0].
+      rewrite S. destruct Hkind as [K|K]; destruct (f_state f); try discriminate K; cbn; lia.
     + split; [|rewrite S; reflexivity]. unfold facts, facts_l. split; [rewrite Hp; exact Hp0|].
       assert (Hts : ts (set_st f0 (ClaimToken StepFirstToken)) = ts f) by (unfold ts; cbn; rewrite Hp0; reflexivity).
       rewrite Hts in *.
-      split; [|split; [intros src Hm; rewrite S in Hm; discriminate Hm|right; right; right; left; split; [exact S|exact G]]].
+      split; [|split; [intros src Hm; rewrite S in Hm; discriminate Hm|split; [right; right; right; left; split; [exact S|exact G]|]]].
+      2:{ intros _. rewrite T. left. right. right. right. right. left. split; [reflexivity|]. split; [destruct Hkind as [K|K]; [left|right; left]; exact K|]. split; [exact G|rewrite S; reflexivity]. }
       intros _. right. eexists. split; [exact T|]. right. split; [apply quiet_calls_same; exact Hca|]. left.
       eexists. split; [reflexivity|]. left. split; [reflexivity|]. left. split; [exact S|]. left.
       unfold idle_kind. tauto.
@@ -1327,9 +1473,117 @@ Qed.
 (* ------------------------------------------------------------------------------------------ *)
 (* the receive loops of ListenToken / ActiveIdle / CheckTokenPass                               *)
 
+(* where the receive callbacks can take the state: nowhere, or into a listening / idle / token-use state *)
+Definition rx_kind (s : state) : Prop :=
+  kind_of s = KListenToken \/ kind_of s = KOffline \/ kind_of s = KActiveIdle \/ kind_of s = KUseToken.
+
+Lemma handle_telegram_kind now f (w : W) t il f' w' :
+  handle_telegram A now f w t il = Ok (f', w') -> f_state f' = f_state f \/ rx_kind (f_state f').
+Proof.
+  unfold handle_telegram, rx_kind. intros H.
+  destruct (f_state f) as [ | |sr0 cc0|sr nps cc| | | | | | ] eqn:Es; cbn [negb kind_of state_kind_eqb] in H; try discriminate H.
+  - injection H as <- <-. left. exact Es.
+  - destruct t as [h pdu|da sa|].
+    + destruct (is_fdl_status_request h && (h_da h =? ts f) && il).
+      * cbn [get_active_idle bind] in H. injection H as <- <-. right. cbn. tauto.
+      * injection H as <- <-. left. exact Es.
+    + cbn [get_active_idle bind] in H.
+      destruct (sa =? ts f).
+      * destruct (u8_add cc 1) as [cc'| |]; cbn [bind] in H; try discriminate H.
+        destruct (cc' =? active_idle_collision_tolerated).
+        -- injection H as <- <-. right. cbn. tauto.
+        -- apply trans_spec in H. destruct H as [s' [Ht [-> ->]]]. cbn in Ht. injection Ht as <-. right. cbn. tauto.
+      * match type of H with (if ?c then _ else _) = _ => destruct c end.
+        -- destruct (witness _ _ _) as [r| |]; cbn [bind] in H; try discriminate H. injection H as <- <-. right. cbn. tauto.
+        -- match type of H with (if ?c then _ else _) = _ => destruct c end.
+           ++ apply trans_spec in H. destruct H as [s' [Ht [-> ->]]]. cbn in Ht. injection Ht as <-. right. cbn. tauto.
+           ++ destruct nps as [address|].
+              ** destruct (address =? sa).
+                 --- destruct (witness _ _ _) as [r| |]; cbn [bind] in H; try discriminate H.
+                     apply trans_spec in H. destruct H as [s' [Ht [-> ->]]]. cbn in Ht. injection Ht as <-. right. cbn. tauto.
+                 --- injection H as <- <-. right. cbn. tauto.
+              ** injection H as <- <-. right. cbn. tauto.
+    + injection H as <- <-. left. exact Es.
+Qed.
+
+Lemma active_idle_telegram_kind now (f : fdl) (w : W) t il f' w' u :
+  active_idle_telegram A now (f, w) t il = Ok (f', w', u) -> f_state f' = f_state f \/ rx_kind (f_state f').
+Proof.
+  unfold active_idle_telegram. intros H.
+  destruct (handle_telegram A now (mark_rx f now) w t il) as [[f1 w1]| |] eqn:Eh; cbn [bind] in H; try discriminate H.
+  injection H as <- <- _. apply handle_telegram_kind in Eh.
+  destruct (mark_rx_frame f now) as [_ [_ [_ [Ms _]]]]. rewrite Ms in Eh. exact Eh.
+Qed.
+
+Lemma check_token_pass_telegram_kind now (f : fdl) (w : W) fi t il f' w' fi' u :
+  check_token_pass_telegram A now (f, w, fi) t il = Ok (f', w', fi', u) -> f_state f' = f_state f \/ rx_kind (f_state f').
+Proof.
+  unfold check_token_pass_telegram. intros H.
+  destruct (mark_rx_frame f now) as [_ [_ [_ [Ms _]]]].
+  match type of H with bind ?x _ = _ => destruct x as [[f1 w1]| |] eqn:E1 end; cbn [bind] in H; try discriminate H.
+  destruct (handle_telegram A now f1 w1 t il) as [[f2 w2]| |] eqn:Eh; cbn [bind] in H; try discriminate H.
+  injection H as <- <- _ _. apply handle_telegram_kind in Eh.
+  destruct fi.
+  - apply trans_spec in E1. destruct E1 as [s' [Htr [-> ->]]].
+    unfold transition_active_idle in Htr. destruct (assert_kind _ _); cbn [bind] in Htr; try discriminate Htr. injection Htr as <-.
+    cbn in Eh. right. destruct Eh as [->|X]; [unfold rx_kind; cbn; tauto|exact X].
+  - injection E1 as <- <-. rewrite Ms in Eh. exact Eh.
+Qed.
+
+Lemma listen_token_telegram_kind now (f : fdl) (w : W) t il f' w' u :
+  listen_token_telegram A now (f, w) t il = Ok (f', w', u) -> f_state f' = f_state f \/ rx_kind (f_state f').
+Proof.
+  unfold listen_token_telegram. intros H.
+  destruct (mark_rx_frame f now) as [_ [_ [_ [Ms _]]]].
+  assert (Hrest : forall X : res (fdl * W * unit),
+    X = Ok (f', w', u) ->
+    X = (if opt_eqb (source_address t) (Some (ts (mark_rx f now)))
+     then let* (sr, cc) := get_listen_token (f_state (mark_rx f now)) in
+          let* cc0 := u8_add cc 1 in
+          let f0 := set_st (mark_rx f now) (ListenToken sr cc0) in
+          if cc0 =? listen_collision_tolerated then Ok (f0, note A w TLtCollisionFirst, tt)
+          else let* f1 := set_offline f0 in Ok (f1, note A w TLtCollisionOffline, tt)
+     else match t with
+          | TData h _ =>
+              if is_fdl_status_request h && (h_da h =? ts (mark_rx f now))
+              then if il
+                   then let* (_, cc) := get_listen_token (f_state (mark_rx f now)) in
+                        Ok (set_st (mark_rx f now) (ListenToken (Some (h_sa h)) cc), note A w TLtStatusReqLast, tt)
+                   else Ok (mark_rx f now, note A w TLtStatusReqNotLast, tt)
+              else Ok (mark_rx f now, note A w TLtOther, tt)
+          | TToken da sa => let* r := witness (f_ring (mark_rx f now)) sa da in Ok (set_ring (mark_rx f now) r, note A w TLtWitness, tt)
+          | TShortConf => Ok (mark_rx f now, note A w TLtOther, tt)
+          end) ->
+    f_state f' = f_state f \/ rx_kind (f_state f')).
+  { clear H. intros X HX ->. unfold rx_kind. destruct (opt_eqb _ _).
+    - destruct (get_listen_token _) as [[sr cc]| |]; cbn [bind] in HX; try discriminate HX.
+      destruct (u8_add cc 1) as [cc'| |]; cbn [bind] in HX; try discriminate HX.
+      destruct (cc' =? listen_collision_tolerated).
+      + injection HX as <- _ _. right. cbn. tauto.
+      + unfold set_offline, set_state, fdl_new in HX.
+        destruct (negb _); [discriminate HX|]. destruct (negb _); [discriminate HX|].
+        destruct (ring_new _) as [r0| |]; cbn [bind] in HX; try discriminate HX.
+        injection HX as <- _ _. right. cbn. tauto.
+    - destruct t as [h pdu|da sa|].
+      + destruct (is_fdl_status_request h && _).
+        * destruct il.
+          -- destruct (get_listen_token _) as [[sr cc]| |]; cbn [bind] in HX; try discriminate HX.
+             injection HX as <- _ _. right. cbn. tauto.
+          -- injection HX as <- _ _. left. exact Ms.
+        * injection HX as <- _ _. left. exact Ms.
+      + destruct (witness _ _ _) as [r0| |]; cbn [bind] in HX; try discriminate HX.
+        injection HX as <- _ _. left. cbn. exact Ms.
+      + injection HX as <- _ _. left. exact Ms. }
+  destruct (f_conn (mark_rx f now)).
+  - injection H as <- _ _. left. exact Ms.
+  - exact (Hrest _ H eq_refl).
+  - exact (Hrest _ H eq_refl).
+Qed.
+
 Definition cb_facts {St : Type} (now : Z) (fw : St -> fdl * W) (cb : St -> telegram -> bool -> res (St * unit)) : Prop :=
   forall s t il s' u, cb s t il = Ok (s', u) ->
   let f := fst (fw s) in let w := snd (fw s) in let f' := fst (fw s') in let w' := snd (fw s') in
+  (f_state f' = f_state f \/ rx_kind (f_state f')) /\
   (f_lba f' = f_lba (mark_rx f now) \/ (f_lba f' = None /\ f_state f' = Offline)) /\
   f_p f' = f_p f /\ w_tx w' = w_tx w /\ w_calls w' = w_calls w /\ w_apps w' = w_apps w /\
   ((f_gap f' = f_gap f /\ f_conn f' = f_conn f) \/ (f_state f' = Offline /\ f_conn f' = ConnOffline)) /\
@@ -1355,7 +1609,7 @@ Proof.
                 w_calls (snd (fw x)) = w_calls (snd (fw s)) /\ w_apps (snd (fw x)) = w_apps (snd (fw s)) /\
                 (f_gap (fst (fw x)) = f_gap (fst (fw s)) \/ (f_state (fst (fw x)) = Offline /\ f_conn (fst (fw x)) = ConnOffline)))
               cb _ fuel s buf s' rest r _ H).
-    - intros x t il x' u [I1 [I2 [I3 [I4 I5]]]] Hc. destruct (Hcb _ _ _ _ _ Hc) as [_ [C1 [C2 [C3 [C4 [C5 [C6 _]]]]]]].
+    - intros x t il x' u [I1 [I2 [I3 [I4 I5]]]] Hc. destruct (Hcb _ _ _ _ _ Hc) as [CK [_ [C1 [C2 [C3 [C4 [C5 [C6 _]]]]]]]].
       rewrite C1, C2, C3, C4. repeat (split; [assumption|]).
       destruct I5 as [I5|[I5 I6]].
       + destruct C5 as [[C5 _]|C5]; [left; rewrite C5; exact I5|right; exact C5].
@@ -1373,13 +1627,13 @@ Proof.
       (fun x t => is_status_request_to (ts (fst (fw s))) src t /\ (lba_le (fst (fw s)) now -> f_lba (fst (fw x)) = Some now)) cb)
       with (fuel := fuel) (s := s) (buf := buf) (s' := s') (rest := rest) (r := r)
       as [[X _]|[pre [suf [t [Hb [Hdc [[Hq Hlb] Hrest]]]]]]]; try assumption.
-  - intros x t x' u [I1 [I2 I3]] Hc. destruct (Hcb _ _ _ _ _ Hc) as [C0 [C1 [_ [_ [_ [_ [_ C7]]]]]]].
+  - intros x t x' u [I1 [I2 I3]] Hc. destruct (Hcb _ _ _ _ _ Hc) as [CK [C0 [C1 [_ [_ [_ [_ [_ C7]]]]]]]].
     split; [|split; [rewrite C1; exact I2|]].
     + intros Hx. destruct (C7 src Hx) as [Y|[Y _]]; [contradiction|discriminate Y].
     + intros Hs. specialize (I3 Hs). destruct C0 as [C0|[C0 _]].
       * intros l Hl. rewrite C0, (mark_rx_lba _ _ I3) in Hl. injection Hl as <-. lia.
       * intros l Hl. rewrite C0 in Hl. discriminate Hl.
-  - intros x t x' u [I1 [I2 I3]] Hc. destruct (Hcb _ _ _ _ _ Hc) as [C0 [C1 [_ [_ [_ [_ [_ C7]]]]]]].
+  - intros x t x' u [I1 [I2 I3]] Hc. destruct (Hcb _ _ _ _ _ Hc) as [CK [C0 [C1 [_ [_ [_ [_ [_ C7]]]]]]]].
     assert (Hle : lba_le (fst (fw s)) now -> lba_le (fst (fw x')) now).
     { intros Hs. specialize (I3 Hs). destruct C0 as [C0|[C0 _]].
       - intros l Hl. rewrite C0, (mark_rx_lba _ _ I3) in Hl. injection Hl as <-. lia.
@@ -1400,7 +1654,8 @@ Qed.
 
 Lemma listen_cb_facts now : cb_facts now (fun s : fdl * W => s) (listen_token_telegram A now).
 Proof.
-  intros [f w] t il [f' w'] u Hc. cbn [fst snd]. split; [exact (listen_token_telegram_lba _ _ _ _ _ _ _ _ Hc)|].
+  intros [f w] t il [f' w'] u Hc. cbn [fst snd]. split; [exact (listen_token_telegram_kind _ _ _ _ _ _ _ _ Hc)|].
+  split; [exact (listen_token_telegram_lba _ _ _ _ _ _ _ _ Hc)|].
   apply listen_token_telegram_facts in Hc.
   destruct Hc as [C1 [C2 [C3 [C4 [C5 [C6 C7]]]]]]. repeat (split; [assumption|]). split; [|exact C7].
   intros Hco _. exact (C6 Hco).
@@ -1411,7 +1666,8 @@ Proof. intros E. unfold handle_telegram. rewrite E. reflexivity. Qed.
 
 Lemma active_idle_cb_facts now : cb_facts now (fun s : fdl * W => s) (active_idle_telegram A now).
 Proof.
-  intros [f w] t il [f' w'] u Hc. cbn [fst snd]. pose proof Hc as Hraw. apply active_idle_telegram_facts in Hc.
+  intros [f w] t il [f' w'] u Hc. cbn [fst snd]. pose proof Hc as Hraw. split; [exact (active_idle_telegram_kind _ _ _ _ _ _ _ _ Hc)|].
+  apply active_idle_telegram_facts in Hc.
   destruct Hc as [C1 [C2 [C3 [C4 [C5 [C6 [C0 C7]]]]]]]. split; [left; exact C0|]. repeat (split; [assumption|]).
   split; [left; split; assumption|]. split; [|exact C7].
   intros _ Hoff. exfalso. unfold active_idle_telegram in Hraw.
@@ -1421,7 +1677,8 @@ Qed.
 
 Lemma check_cb_facts now : cb_facts now (fun s : fdl * W * bool => fst s) (check_token_pass_telegram A now).
 Proof.
-  intros [[f w] fi] t il [[f' w'] fi'] u Hc. cbn [fst snd]. pose proof Hc as Hraw. apply check_token_pass_telegram_facts in Hc.
+  intros [[f w] fi] t il [[f' w'] fi'] u Hc. cbn [fst snd]. pose proof Hc as Hraw. split; [exact (check_token_pass_telegram_kind _ _ _ _ _ _ _ _ _ _ Hc)|].
+  apply check_token_pass_telegram_facts in Hc.
   destruct Hc as [C1 [C2 [C3 [C4 [C5 [C6 [C0 C7]]]]]]]. split; [left; exact C0|]. repeat (split; [assumption|]).
   split; [left; split; assumption|]. split; [|exact C7].
   intros _ Hoff. exfalso. unfold check_token_pass_telegram in Hraw.
@@ -1431,19 +1688,43 @@ Proof.
   - cbn [bind] in Hraw. rewrite handle_telegram_offline in Hraw; [discriminate Hraw|]. rewrite Ms. exact Hoff.
 Qed.
 
+Lemma receive_all_cb_kind {St : Type} now (fw : St -> fdl * W) cb fuel s buf s' rest r :
+  cb_facts now fw cb -> receive_all cb fuel s buf = Ok (s', rest, r) ->
+  f_state (fst (fw s')) = f_state (fst (fw s)) \/ rx_kind (f_state (fst (fw s'))).
+Proof.
+  intros Hcb H.
+  refine (receive_all_inv (fun x => f_state (fst (fw x)) = f_state (fst (fw s)) \/ rx_kind (f_state (fst (fw x))))
+            cb _ fuel s buf s' rest r _ H).
+  - intros x t il x' u I Hc. destruct (Hcb _ _ _ _ _ Hc) as [CK _].
+    destruct CK as [CK|CK]; [rewrite CK; exact I|right; exact CK].
+  - left. reflexivity.
+Qed.
+
+Lemma rx_kind_sw f f' calls calls' : rx_kind (f_state f') -> f_gap f' = f_gap f -> sw_rel f f' calls calls' None.
+Proof.
+  intros [K|[K|[K|K]]] Hg.
+  - left. right. right. right. left. exact K.
+  - left. right. right. left. exact K.
+  - apply sw_rel_quiet; [|exact Hg]. pose proof (pend_range (f_state f)). destruct (f_state f'); try discriminate K. cbn. lia.
+  - apply sw_rel_quiet; [|exact Hg]. pose proof (pend_range (f_state f)). destruct (f_state f'); try discriminate K. cbn. lia.
+Qed.
+
 Lemma facts_silent L f f' (w w' : W) now :
   f_p f' = f_p f -> f_state f' = f_state f -> f_gap f' = f_gap f -> w_tx w' = w_tx w -> facts_l L f f' w w' now.
 Proof.
   intros Hp Hs Hg Ht. unfold facts_l. split; [exact Hp|]. split; [intros Hn; left; rewrite Ht; exact Hn|].
-  split; [intros src Hm; left; rewrite <- Hs; exact Hm|left; exact Hg].
+  split; [intros src Hm; left; rewrite <- Hs; exact Hm|]. split; [left; exact Hg|].
+  intros Hn. rewrite Ht, Hn. apply sw_rel_silent; assumption.
 Qed.
 
 (* a step that neither transmits nor leaves a pending request nor touches the GAP state *)
 Lemma facts_quiet L f f' (w w' : W) now :
-  f_p f' = f_p f -> marker (f_state f') = None -> f_gap f' = f_gap f -> w_tx w' = w_tx w -> facts_l L f f' w w' now.
+  f_p f' = f_p f -> marker (f_state f') = None -> f_gap f' = f_gap f -> w_tx w' = w_tx w ->
+  pend (f_state f) <= pend (f_state f') -> facts_l L f f' w w' now.
 Proof.
-  intros Hp Hs Hg Ht. unfold facts_l. split; [exact Hp|]. split; [intros Hn; left; rewrite Ht; exact Hn|].
-  split; [intros src Hm; rewrite Hs in Hm; discriminate Hm|left; exact Hg].
+  intros Hp Hs Hg Ht Hpd. unfold facts_l. split; [exact Hp|]. split; [intros Hn; left; rewrite Ht; exact Hn|].
+  split; [intros src Hm; rewrite Hs in Hm; discriminate Hm|]. split; [left; exact Hg|].
+  intros Hn. rewrite Ht, Hn. apply sw_rel_quiet; assumption.
 Qed.
 
 (* ------------------------------------------------------------------------------------------ *)
@@ -1462,7 +1743,11 @@ Proof.
   split; [exact F1|]. split; [intros Hn; left; rewrite F2; exact Hn|]. split.
   { intros src Hm. destruct (F6 src Hm) as [X|[X1 [-> X3]]]; [left; exact X|right].
     split; [exact X1|]. split; [reflexivity|]. split; [apply Nat.min_0_r|exact X3]. }
-  destruct F5 as [F5|F5]; [left; exact F5|right; right; right; right; exact F5].
+  pose proof (receive_all_cb_kind now (fun s : fdl * W => s) cb _ _ _ _ _ _ Hcb Er) as HK. cbn [fst snd] in HK.
+  split; [destruct F5 as [F5|F5]; [left; exact F5|right; right; right; right; exact F5]|].
+  intros Hn. rewrite F2, Hn. destruct F5 as [F5|[F5 _]].
+  - destruct HK as [HK|HK]; [apply sw_rel_silent; assumption|apply rx_kind_sw; assumption].
+  - left. right. right. left. cbn [set_pending f_state]. rewrite F5. reflexivity.
 Qed.
 
 Lemma do_listen_token_facts f now (w : W) f' w' :
@@ -1501,7 +1786,9 @@ Proof.
         -- intros _. right. eexists. split; [exact Htx2|]. right. split; [apply quiet_calls_same; exact Hca2|]. right. right.
            eexists; eexists. split; [reflexivity|]. left. exists cc0. split; [exact Es|]. split; [reflexivity|]. rewrite Hs3. exact Hs2.
         -- intros s Hm. rewrite Hs3, Hs2 in Hm. destruct (ready_for_ring (f_ring f)); discriminate Hm.
-        -- left. congruence.
+        -- split; [left; congruence|]. intros _. rewrite Htx2. right. right. right.
+           split; [right; right; left; eexists; eexists; split; [reflexivity|left; rewrite Es; reflexivity]|].
+           left. split; [congruence|]. rewrite Hs3, Hs2, Es. destruct (ready_for_ring (f_ring f)); cbn; lia.
     + apply receive_all_telegrams_facts with (now := now) in H; [|apply listen_cb_facts].
       apply (facts_pre f f0 f' w w w' now); try assumption; try reflexivity.
 Qed.
@@ -1533,7 +1820,9 @@ Proof.
         -- intros _. right. eexists. split; [reflexivity|]. right. split; [apply quiet_calls_same; reflexivity|]. right. right.
            eexists; eexists. split; [reflexivity|]. right. exists nps0, cc0. split; [exact Es|]. split; [reflexivity|]. exact Hs3.
         -- intros s Hm. rewrite Hs3 in Hm. discriminate Hm.
-        -- left. congruence.
+        -- split; [left; congruence|]. intros _. cbn [sent w_tx note]. right. right. right.
+           split; [right; right; left; eexists; eexists; split; [reflexivity|right; rewrite Es; reflexivity]|].
+           left. split; [congruence|]. rewrite Hs3, Es. cbn. lia.
     + apply receive_all_telegrams_facts with (now := now) in H; [|apply active_idle_cb_facts].
       apply (facts_pre f f0 f' w w w' now); try assumption; try reflexivity.
 Qed.
@@ -1549,6 +1838,35 @@ Proof.
   intros Hle l' Hl'. rewrite Hl in Hl'. injection Hl' as <-. destruct (f_lba f) as [l0|] eqn:E0; [subst l; exact (Hle l0 E0)|lia].
 Qed.
 
+(* do_pass_token stays in PassToken only while the synchronisation pause is not over *)
+Lemma do_pass_token_wait_timing f now (w : W) f' w' l :
+  do_pass_token A f now w = Ok (f', w') -> kind_of (f_state f') = KPassToken -> f_lba f = Some l ->
+  now <= l + p_bits_to_time (f_p f) sync_pause_bits.
+Proof.
+  unfold do_pass_token, assert_entry. intros H Hk Hl.
+  destruct (f_state f) as [ | | | | | | |dg att| | ] eqn:Es; cbn [kind_of do_fn_entry state_kind_eqb bind] in H; try discriminate H.
+  unfold wait_synchronization_pause, lba_get_or_insert in H. rewrite Hl in H.
+  destruct (inst_add l _) as [dl| |] eqn:Ed; cbn [bind] in H; try discriminate H.
+  unfold inst_add in Ed. destruct (i64_ok _); [|discriminate Ed]. injection Ed as <-.
+  destruct (Z.leb_spec now (l + p_bits_to_time (f_p f) sync_pause_bits)) as [Hle|Hgt]; [exact Hle|exfalso].
+  rewrite Es in H. cbn [get_pass_token bind] in H.
+  match type of H with bind ?x _ = _ => destruct x as [[[f2 w2] polled]| |] eqn:E2 end; cbn [bind] in H; try discriminate H.
+  destruct polled as [pa|].
+  - apply trans_spec in H. destruct H as [s' [Ht [-> _]]].
+    unfold transition_await_status_response in Ht. destruct (assert_kind _ _); cbn [bind] in Ht; try discriminate Ht.
+    injection Ht as <-. discriminate Hk.
+  - apply pass_token_tail_state in H. destruct H as [[tk S]|[a S]]; rewrite S in Hk; discriminate Hk.
+Qed.
+
+Lemma check_slot_expired_timing f now f1 : check_slot_expired f now = Ok (f1, true) ->
+  exists l, f_lba f1 = Some l /\ l + slot_time (f_p f) < now.
+Proof.
+  unfold check_slot_expired. destruct (lba_get_or_insert f now) as [l f0] eqn:E.
+  apply lba_get_or_insert_same in E. destruct E as [[Hp _] [Hl _]].
+  unfold inst_add. destruct (i64_ok _); cbn [bind]; [|discriminate].
+  intros H. injection H as <- Hb. exists l. split; [exact Hl|]. apply Z.ltb_lt in Hb. rewrite Hp in Hb. exact Hb.
+Qed.
+
 Lemma do_check_token_pass_facts f now (w : W) f' w' :
   do_check_token_pass A f now w = Ok (f', w') -> facts f f' w w' now.
 Proof.
@@ -1556,30 +1874,42 @@ Proof.
   destruct (f_state f) as [ | | | | | | | |att0| ] eqn:Es; cbn [kind_of do_fn_entry state_kind_eqb bind] in H; try discriminate H.
   destruct (check_slot_expired f now) as [[f1 expired]| |] eqn:Ec; cbn [bind] in H; try discriminate H.
   pose proof (check_slot_expired_lba _ _ _ _ Ec) as Hle1.
+  assert (Htm : expired = true -> exists l, f_lba f1 = Some l /\ l + slot_time (f_p f) < now)
+    by (intros ->; eapply check_slot_expired_timing; exact Ec).
   apply check_slot_expired_same in Ec. destruct Ec as [Hp1 [Hr1 [Hc1 [Hg1 [Hs1 _]]]]].
   destruct expired.
   - rewrite Hs1, Es in H. cbn [get_check_token_pass_attempt bind] in H.
     match type of H with bind ?x _ = _ => destruct x as [[f2 w2]| |] eqn:E2 end; cbn [bind] in H; try discriminate H.
-    assert (H2 : f_p f2 = f_p f /\ f_gap f2 = f_gap f /\ f_state f2 = f_state f /\ w_tx w2 = w_tx w /\ w_calls w2 = w_calls w).
+    assert (H2 : f_p f2 = f_p f /\ f_gap f2 = f_gap f /\ f_state f2 = f_state f /\ w_tx w2 = w_tx w /\ w_calls w2 = w_calls w /\ f_lba f2 = f_lba f1).
     { destruct (check_pass_removes att0).
       - destruct (remove_station _ _) as [r| |]; cbn [bind] in E2; try discriminate E2.
         injection E2 as <- <-. cbn. repeat split; assumption || reflexivity.
       - injection E2 as <- <-. cbn. repeat split; assumption || reflexivity. }
-    destruct H2 as [Hp2 [Hg2 [Hs2 [Ht2 Hca2]]]].
+    destruct H2 as [Hp2 [Hg2 [Hs2 [Ht2 [Hca2 Hl2]]]]].
     match type of H with context [trans A ?a ?b ?c] => destruct (trans A a b c) as [[f3 w3]| |] eqn:Et end; cbn [bind] in H; try discriminate H.
     apply trans_spec in Et. destruct Et as [s' [Htr [-> ->]]]. rewrite Hs2, Es in Htr. cbn in Htr. injection Htr as <-.
+    pose proof H as Hraw.
     apply do_pass_token_spec in H. destruct H as [dg [att [Hst [Hp [Hc [Hca [Hap [Hrx Hcases]]]]]]]].
     cbn [set_st f_state f_p f_conn f_gap f_ring note w_calls w_apps w_rx w_tx] in *. injection Hst as <- <-.
     assert (Hts : ts (set_st f2 (PassToken false (check_pass_next att0))) = ts f) by (unfold ts; cbn; rewrite Hp2; reflexivity).
     destruct Hcases as [[T [S [G R]]]|[[D _]|[G [T0 [T [Wi St]]]]]].
-    + apply facts_quiet; try congruence. rewrite S. reflexivity.
+    + (* the pause is not over although the slot time is: only with a slot time below 33 bit *)
+      destruct (Htm eq_refl) as [l [El Hlt]].
+      assert (Hshort : short_slot f).
+      { pose proof (do_pass_token_wait_timing _ _ _ _ _ l Hraw ltac:(rewrite S; reflexivity) ltac:(cbn; congruence)) as Hw.
+        cbn [set_st f_p] in Hw. rewrite Hp2 in Hw. unfold short_slot. lia. }
+      unfold facts, facts_l. split; [congruence|]. split; [intros Hn; left; congruence|].
+      split; [intros src Hm; rewrite S in Hm; discriminate Hm|]. split; [left; congruence|].
+      intros _. left. right. right. right. right. right. exact Hshort.
     + discriminate D.
     + unfold facts, facts_l. split; [congruence|]. split; [|split].
       * intros _. right. eexists. split; [exact T|]. right. split; [apply quiet_calls_same; congruence|]. left.
         eexists. split; [rewrite Hts; reflexivity|]. right. split; [|right; right; left; rewrite Es; reflexivity].
         destruct St as [[_ S]|[_ S]]; [left; exact S|right; eexists; exact S].
       * intros src Hm. destruct St as [[_ S]|[_ S]]; rewrite S in Hm; discriminate Hm.
-      * left. congruence.
+      * split; [left; congruence|]. intros _. rewrite T. right. right. right.
+        split; [right; right; right; eexists; split; [rewrite Hts; reflexivity|rewrite Es; reflexivity]|].
+        left. split; [congruence|]. rewrite Es. destruct St as [[_ S]|[_ S]]; rewrite S; cbn; lia.
   - destruct (receive_all _ _ (f1, w, true) (w_rx w)) as [[[s1 rest] r]| |] eqn:Er; cbn [bind] in H; try discriminate H.
     destruct s1 as [[f2 w2] fi]. injection H as <- <-.
     pose proof (receive_all_cb_facts now (fun s : fdl * W * bool => fst s) _ _ _ _ _ _ _ (check_cb_facts now) Er) as Hf. cbn [fst snd] in Hf.
@@ -1590,7 +1920,12 @@ Proof.
     + intros src Hm. destruct (F6 src Hm) as [X|[X1 [-> X3]]]; [rewrite Hs1, Es in X; discriminate X|].
       right. unfold ts in *. rewrite Hp1 in X1. split; [exact X1|].
       split; [destruct fi; reflexivity|]. split; [apply Nat.min_0_r|]. intros Hle. exact (X3 (Hle1 Hle)).
-    + destruct F5 as [F5|F5]; [left; congruence|right; right; right; right; exact F5].
+    + pose proof (receive_all_cb_kind now (fun s : fdl * W * bool => fst s) _ _ _ _ _ _ _ (check_cb_facts now) Er) as HK. cbn [fst snd] in HK.
+      split; [destruct F5 as [F5|F5]; [left; congruence|right; right; right; right; exact F5]|].
+      intros Hn. assert (Htx : w_tx (if fi then note A w2 TCheckAwait else w2) = None) by (destruct fi; cbn; rewrite F2; exact Hn).
+      rewrite Htx. destruct F5 as [F5|[F5 _]].
+      * destruct HK as [HK|HK]; [apply sw_rel_silent; cbn [set_pending f_state f_gap]; congruence|apply rx_kind_sw; [exact HK|cbn [set_pending f_gap]; congruence]].
+      * left. right. right. left. cbn [set_pending f_state]. rewrite F5. reflexivity.
 Qed.
 
 (* ------------------------------------------------------------------------------------------ *)
@@ -1651,15 +1986,18 @@ Proof.
 Qed.
 
 Definition use_facts (f f' : fdl) (w w' : W) : Prop :=
-  f_p f' = f_p f /\ f_gap f' = f_gap f /\ marker (f_state f') = None /\
+  f_p f' = f_p f /\ f_gap f' = f_gap f /\ (marker (f_state f') = None /\ pend (f_state f') = 1) /\
   (w_tx w = None -> w_tx w' = None \/ exists wire, w_tx w' = Some wire /\ tx_app f f' (w_calls w') wire).
 
 Lemma use_facts_facts f f' (w w' : W) now : use_facts f f' w w' -> facts f f' w w' now.
 Proof.
-  intros [U1 [U2 [U3 U4]]]. unfold facts, facts_l. split; [exact U1|]. split; [|split].
+  intros [U1 [U2 [[U3 U3'] U4]]]. unfold facts, facts_l. split; [exact U1|]. split; [|split].
   - intros Hn. destruct (U4 Hn) as [X|[wire [X Y]]]; [left; exact X|right; exists wire; split; [exact X|left; exact Y]].
   - intros src Hm. rewrite U3 in Hm. discriminate Hm.
-  - left. exact U2.
+  - split; [left; exact U2|]. intros Hn. right. right. right. pose proof (pend_range (f_state f)).
+    split; [|left; split; [exact U2|lia]].
+    destruct (U4 Hn) as [X|[wire [X [cs [i [hp [er [C _]]]]]]]]; [left; exact X|].
+    right. left. exists wire, cs, i, hp, er. split; assumption.
 Qed.
 
 Lemma do_use_token_head_use_facts f now (w : W) f' w' :
@@ -1681,7 +2019,7 @@ Proof.
   apply wait_sync_same in Ew. destruct Ew as [[Hp2 [_ [_ [Hg2 [Hs2 _]]]]] _].
   destruct wait.
   - injection H as <- <-. unfold use_facts. cbn. split; [congruence|]. split; [congruence|].
-    split; [rewrite Hs2, Hs1, Es; reflexivity|]. intros Hn. left. congruence.
+    split; [rewrite Hs2, Hs1, Es; split; reflexivity|]. intros Hn. left. congruence.
   - rewrite Hs2, Hs1, Es in H. cbn [get_use_token bind] in H.
     assert (Hloop : forall hp (wx : W) f3 w3 d, w_tx wx = w_tx w ->
       (let* f0 := set_first_cycle_done f2 in apps_transmit_telegram A ops f0 now wx hp) = Ok (f3, w3, d) ->
@@ -1692,7 +2030,7 @@ Proof.
       unfold use_facts.
       destruct (w_tx w) eqn:Htw.
       - (* the PHY was already used in this poll: no application can transmit *)
-        assert (Hpf : f_p f' = f_p f /\ marker (f_state f') = None /\ f_gap f' = f_gap f).
+        assert (Hpf : f_p f' = f_p f /\ (marker (f_state f') = None /\ pend (f_state f') = 1) /\ f_gap f' = f_gap f).
         { unfold apps_transmit_telegram in Hl.
           revert Hl. generalize (length (w_apps wx)). intros n Hl.
           assert (G : forall n f4 (w4 : W) f5 w5 d5, apps_transmit_loop A ops n f4 now w4 hp = Ok (f5, w5, d5) ->
@@ -1724,19 +2062,19 @@ Proof.
         destruct d.
         + injection Hfin as <- <-. destruct Q3 as [wire [cs [i [er [T [C K]]]]]].
           split; [congruence|]. split; [congruence|]. split.
-          * destruct K as [K|K]; destruct (f_state f3); try discriminate K; reflexivity.
+          * destruct K as [K|K]; destruct (f_state f3); try discriminate K; split; reflexivity.
           * intros _. right. exists wire. split; [exact T|]. exists cs, i, hp, er. split; [exact C|]. split; [left; rewrite Es; reflexivity|exact K].
         + destruct Q3 as [T K].
           apply trans_spec in Hfin. destruct Hfin as [s' [Htr [-> ->]]].
           unfold transition_pass_token in Htr. destruct (assert_kind _ _); cbn [bind] in Htr; try discriminate Htr. injection Htr as <-.
-          cbn. split; [congruence|]. split; [congruence|]. split; [reflexivity|]. intros _. left. exact T. }
+          cbn. split; [congruence|]. split; [congruence|]. split; [split; reflexivity|]. intros _. left. exact T. }
     destruct (now <? f_end_tht f2).
     + match type of H with bind ?x _ = _ => destruct x as [[[f3 w3] d]| |] eqn:El end; cbn [bind] in H; try discriminate H.
       exact (Hloop false (note A w1 TUseLowPrio) f3 w3 d Ht1 El H).
     + destruct fcd; cbn [negb] in H.
       * cbn [bind] in H. apply trans_spec in H. destruct H as [s' [Htr [-> ->]]].
         unfold transition_pass_token in Htr. destruct (assert_kind _ _); cbn [bind] in Htr; try discriminate Htr. injection Htr as <-.
-        unfold use_facts. cbn. split; [congruence|]. split; [congruence|]. split; [reflexivity|]. intros Hn. left. congruence.
+        unfold use_facts. cbn. split; [congruence|]. split; [congruence|]. split; [split; reflexivity|]. intros Hn. left. congruence.
       * match type of H with bind ?x _ = _ => destruct x as [[[f3 w3] d]| |] eqn:El end; cbn [bind] in H; try discriminate H.
         exact (Hloop true (note A w1 TUseHighPrioOnce) f3 w3 d Ht1 El H).
 Qed.
@@ -1760,26 +2098,31 @@ Definition use_pass_facts (f f' : fdl) (calls : list call) (tx0 : option bytes) 
   (tx0 = None -> w_tx w' = None \/ exists wire, w_tx w' = Some wire /\
      ((exists cs i hp er, w_calls w' = cs ++ [CallTransmit i hp (Some (wire, er))] /\ in_use (f_state f')) \/
       ((exists l, w_calls w' = calls ++ l /\ Forall no_send l) /\
-       (pass_token_tx f f' now wire \/ pass_gap_tx f f' wire)))).
+       (pass_token_tx f f' now wire \/ pass_gap_tx f f' wire)))) /\
+  (tx0 = None -> forall f0, f_p f0 = f_p f -> f_ring f0 = f_ring f -> f_gap f0 = f_gap f -> in_use (f_state f0) ->
+     sw_rel f0 f' calls (w_calls w') (w_tx w')).
 
 Lemma use_pass_facts_pre f0 f f' calls0 calls tx0 tx1 (w' : W) now pre :
   f_p f = f_p f0 -> f_ring f = f_ring f0 -> f_gap f = f_gap f0 ->
   tx1 = tx0 -> calls = calls0 ++ pre -> Forall no_send pre ->
   use_pass_facts f f' calls tx1 w' now -> use_pass_facts f0 f' calls0 tx0 w' now.
 Proof.
-  intros Hp Hr Hg -> -> Hpre [U1 [U2 [U3 U4]]]. unfold use_pass_facts.
-  split; [congruence|]. split; [exact U2|]. split.
+  intros Hp Hr Hg -> -> Hpre [U1 [U2 [U3 [U4 U5]]]]. unfold use_pass_facts.
+  split; [congruence|]. split; [exact U2|]. split; [|split].
   - rewrite <- Hg, <- (gap_visit_step_ext f f0 Hp Hr Hg). exact U3.
   - intros Hn. destruct (U4 Hn) as [X|[wire [X Y]]]; [left; exact X|]. right. exists wire. split; [exact X|].
     destruct Y as [Y|[[l [Hl Hf]] Y]]; [left; exact Y|right]. split.
     + exists (pre ++ l). split; [rewrite Hl, app_assoc; reflexivity|apply Forall_app; split; assumption].
     + unfold pass_token_tx, pass_gap_tx, gap_cursor_ok, ts in *. rewrite <- Hp, <- Hr, <- Hg. exact Y.
+  - intros Hn f00 Hp0 Hr0 Hg0 Hu0.
+    eapply (sw_rel_pre f00 f00); [reflexivity|reflexivity|reflexivity|reflexivity|reflexivity|exact Hpre|].
+    apply (U5 Hn); congruence.
 Qed.
 
 Lemma use_pass_facts_facts f f' (w w' : W) now :
   in_use (f_state f) -> use_pass_facts f f' (w_calls w) (w_tx w) w' now -> facts f f' w w' now.
 Proof.
-  intros Hu [U1 [U2 [U3 U4]]]. unfold facts, facts_l. split; [exact U1|]. split; [|split].
+  intros Hu [U1 [U2 [U3 [U4 U5]]]]. unfold facts, facts_l. split; [exact U1|]. split; [|split].
   - intros Hn. destruct (U4 Hn) as [X|[wire [X Y]]]; [left; exact X|]. right. exists wire. split; [exact X|].
     destruct Y as [[cs [i [hp [er [C K]]]]]|[[l [Hl Hf]] Y]].
     + left. exists cs, i, hp, er. split; [exact C|]. split; [exact Hu|exact K].
@@ -1788,7 +2131,8 @@ Proof.
       * left. exists (r_ns (f_ring f)). split; [exact Hw|]. right. split; [exact St|]. right. right. right. exact Hu.
       * right. left. exists a. repeat (split; [assumption|]). left. split; [exact St|right; exact Hu].
   - intros src Hm. rewrite U2 in Hm. discriminate Hm.
-  - destruct U3 as [X|X]; [left; exact X|right; left; split; [right; exact Hu|exact X]].
+  - split; [destruct U3 as [X|X]; [left; exact X|right; left; split; [right; exact Hu|exact X]]|].
+    intros Hn. apply (U5 Hn); try reflexivity. exact Hu.
 Qed.
 
 Lemma is_decline_no_send c : is_decline c -> no_send c.
@@ -1809,19 +2153,34 @@ Proof.
     rewrite (gap_visit_step_ext f1 f Hp1 Hr1 Hg1), Hts, Hr1 in Hcases.
     unfold use_pass_facts. split; [congruence|].
     destruct Hcases as [[T [S [G R]]]|[[_ [a [Hstep [G [S [R [T0 T]]]]]]]|[[n [Hstep G]] [T0 [T [Wi St]]]]]].
-    + split; [rewrite S, Es1; reflexivity|]. split; [left; congruence|]. intros Hn. left. congruence.
-    + split; [rewrite S; reflexivity|]. split; [right; rewrite G; exact Hstep|].
-      intros _. right. exists (sr_wire a (ts f)). split; [exact T|]. right.
-      split; [exists l; split; [congruence|exact Hns]|]. right. exists a.
-      destruct (gap_visit_step_in_gap f a Hstep) as [I1 I2].
-      split; [reflexivity|]. split; [exact I1|]. split; [exact I2|]. split; [congruence|]. split; [exact G|exact S].
-    + split; [destruct St as [[_ S]|[_ S]]; rewrite S; reflexivity|]. split; [right; rewrite G; exact Hstep|].
-      intros _. right. eexists. split; [exact T|]. right.
-      split; [exists l; split; [congruence|exact Hns]|]. left. split; [reflexivity|].
-      destruct St as [[_ S]|[_ S]]; [left; exact S|right; eexists; exact S].
-  - injection H as <- <-. unfold use_pass_facts. split; [exact U1|]. split; [exact U3|]. split; [left; exact U2|].
-    intros Hn. destruct (U4 Hn) as [X|[wire [X [cs [i [hp [er [C [_ K]]]]]]]]]; [left; exact X|].
-    right. exists wire. split; [exact X|]. left. exists cs, i, hp, er. split; [exact C|exact K].
+    + split; [rewrite S, Es1; reflexivity|]. split; [left; congruence|]. split; [intros Hn; left; congruence|].
+      intros Hn f0 Hp0 Hr0 Hg0 Hu0. replace (w_tx w') with (@None bytes) by congruence.
+      apply sw_rel_quiet; [rewrite S, Es1; pose proof (pend_range (f_state f0)); cbn; lia|congruence].
+    + split; [rewrite S; reflexivity|]. split; [right; rewrite G; exact Hstep|]. split.
+      * intros _. right. exists (sr_wire a (ts f)). split; [exact T|]. right.
+        split; [exists l; split; [congruence|exact Hns]|]. right. exists a.
+        destruct (gap_visit_step_in_gap f a Hstep) as [I1 I2].
+        split; [reflexivity|]. split; [exact I1|]. split; [exact I2|]. split; [congruence|]. split; [exact G|exact S].
+      * intros _ f0 Hp0 Hr0 Hg0 Hu0. rewrite T. right. left. exists a.
+        split; [unfold ts; rewrite Hp0; reflexivity|]. split; [exists l; split; [congruence|exact Hns]|].
+        split; [rewrite (gap_visit_step_ext f0 f Hp0 Hr0 Hg0); exact Hstep|]. split; [exact G|]. split; [rewrite S; reflexivity|]. split; [congruence|].
+        intros C. exfalso. destruct Hu0 as [K|K]; destruct (f_state f0); try discriminate K; discriminate C.
+    + split; [destruct St as [[_ S]|[_ S]]; rewrite S; reflexivity|]. split; [right; rewrite G; exact Hstep|]. split.
+      * intros _. right. eexists. split; [exact T|]. right.
+        split; [exists l; split; [congruence|exact Hns]|]. left. split; [reflexivity|].
+        destruct St as [[_ S]|[_ S]]; [left; exact S|right; eexists; exact S].
+      * intros _ f0 Hp0 Hr0 Hg0 Hu0. rewrite T. right. right. left. eexists.
+        split; [unfold ts; rewrite Hp0; reflexivity|]. split; [exists l; split; [congruence|exact Hns]|].
+        split; [right; right; exact Hu0|]. split; [destruct St as [[_ S]|[_ S]]; rewrite S; reflexivity|].
+        left. split; [destruct Hu0 as [K|K]; destruct (f_state f0); try discriminate K; reflexivity|].
+        split; [rewrite (gap_visit_step_ext f0 f Hp0 Hr0 Hg0), G; exact Hstep|exists n; exact G].
+  - injection H as <- <-. unfold use_pass_facts. split; [exact U1|]. split; [exact (proj1 U3)|]. split; [left; exact U2|]. split.
+    + intros Hn. destruct (U4 Hn) as [X|[wire [X [cs [i [hp [er [C [_ K]]]]]]]]]; [left; exact X|].
+      right. exists wire. split; [exact X|]. left. exists cs, i, hp, er. split; [exact C|exact K].
+    + intros Hn f0 Hp0 Hr0 Hg0 Hu0. right. right. right. pose proof (pend_range (f_state f0)).
+      split; [|left; split; [congruence|rewrite (proj2 U3); lia]].
+      destruct (U4 Hn) as [X|[wire [X [cs [i [hp [er [C _]]]]]]]]; [left; exact X|].
+      right. left. exists wire, cs, i, hp, er. split; assumption.
 Qed.
 
 Lemma do_use_token_facts f now (w : W) f' w' :
@@ -1846,10 +2205,10 @@ Proof.
       apply trans_spec in Et. destruct Et as [s' [Htr [-> ->]]].
       unfold transition_use_token in Htr. destruct (assert_kind _ _); cbn [bind] in Htr; try discriminate Htr. injection Htr as <-.
       unfold set_first_cycle_done in H. cbn [set_st f_state get_use_token bind] in H. injection H as <- <-.
-      apply facts_quiet; cbn; congruence.
+      apply facts_quiet; cbn; try congruence. rewrite Es. cbn. lia.
     + apply trans_spec in H. destruct H as [s' [Htr [-> ->]]].
       unfold transition_active_idle in Htr. destruct (assert_kind _ _); cbn [bind] in Htr; try discriminate Htr. injection Htr as <-.
-      apply facts_quiet; cbn; congruence.
+      apply facts_quiet; cbn; try congruence. rewrite Es. cbn. lia.
   - destruct (check_slot_expired _ now) as [[f1 expired]| |] eqn:Ec; cbn [bind] in H; try discriminate H.
     apply check_slot_expired_same in Ec. destruct Ec as [Hp1 [Hr1 [_ [Hg1 [Hs1 _]]]]]. cbn in Hp1, Hr1, Hg1, Hs1.
     destruct expired.
@@ -1946,15 +2305,16 @@ Proof.
 Qed.
 
 Lemma facts_entry f f3 f' (w w3 w' : W) now :
-  pre_rel f f3 w w3 -> lba_le f3 now -> facts f3 f' w3 w' now -> facts_l True f f' w w' now.
+  pre_rel f f3 w w3 -> lba_le f3 now -> f_state f3 <> PassiveIdle -> facts f3 f' w3 w' now -> facts_l True f f' w w' now.
 Proof.
-  intros [P1 [P2 [P3 [P4 [P5 [P6 [P7 [P8 P9]]]]]]]] Hle3 Hf.
+  intros [P1 [P2 [P3 [P4 [P5 [P6 [P7 [P8 P9]]]]]]]] Hle3 Hnp Hf.
   destruct P9 as [P9|P9].
   - exact (facts_l_pre True (lba_le f3 now) f f3 f' w w3 w' now P1 P2 P9 P3 P5 P6 P7 (fun _ => Hle3) Hf).
   - assert (Hst : f_state f3 = ListenToken None 0 \/ f_state f3 = PassiveIdle) by (destruct P9 as [[_ X]|[_ X]]; [left|right]; exact X).
     assert (Hidle : idle_kind f).
     { unfold idle_kind. destruct P9 as [[X _]|[X _]]; [right; right; exact X|].
       destruct (f_state f); cbn in X |- *; try discriminate X; tauto. }
+    assert (Hent : online_entry_kind (kind_of (f_state f)) = true) by (destruct P9 as [[X _]|[_ X]]; [exact X|contradiction]).
     clear P9. destruct Hf as [F1 [F2 [F3 F4]]].
     assert (Hts : ts f3 = ts f) by (unfold ts; rewrite P1; reflexivity).
     unfold facts, facts_l. split; [congruence|]. split; [|split].
@@ -1978,14 +2338,16 @@ Proof.
     + intros src Hm. destruct (F3 src Hm) as [X|[X1 [X2 [X3 X4]]]].
       * exfalso. destruct Hst as [Q|Q]; rewrite Q in X; discriminate X.
       * right. rewrite <- P7, <- Hts. repeat (split; [assumption|]). intros _. exact (X4 Hle3).
-    + rewrite <- P3. destruct F4 as [X|X]; [left; exact X|]. right.
-      destruct X as [[[[att S]|[S|S]] _]|[S|[S|S]]].
-      * exfalso. destruct Hst as [Q|Q]; rewrite Q in S; discriminate S.
-      * exfalso. destruct Hst as [Q|Q]; rewrite Q in S; discriminate S.
-      * exfalso. destruct Hst as [Q|Q]; rewrite Q in S; discriminate S.
-      * exfalso. destruct Hst as [Q|Q]; rewrite Q in S; discriminate S.
-      * right. right. left. rewrite <- Hts. exact S.
-      * right. right. right. exact S.
+    + destruct F4 as [F4 F5]. split.
+      * rewrite <- P3. destruct F4 as [X|X]; [left; exact X|]. right.
+        destruct X as [[[[att S]|[S|S]] _]|[S|[S|S]]].
+        -- exfalso. destruct Hst as [Q|Q]; rewrite Q in S; discriminate S.
+        -- exfalso. destruct Hst as [Q|Q]; rewrite Q in S; discriminate S.
+        -- exfalso. destruct Hst as [Q|Q]; rewrite Q in S; discriminate S.
+        -- exfalso. destruct Hst as [Q|Q]; rewrite Q in S; discriminate S.
+        -- right. right. left. rewrite <- Hts. exact S.
+        -- right. right. right. exact S.
+      * intros _. left. unfold sw_reset. destruct (f_state f) eqn:Esf; cbn in Hent; try discriminate Hent; cbn [kind_of]; tauto.
 Qed.
 
 Lemma pre_rel_facts L f f' (w w' : W) now : pre_rel f f' w w' -> facts_l L f f' w w' now.
@@ -1993,8 +2355,8 @@ Proof.
   intros [P1 [P2 [P3 [P4 [P5 [P6 [P7 [P8 P9]]]]]]]].
   destruct P9 as [P9|[[_ P9]|[_ P9]]].
   - apply facts_silent; assumption.
-  - apply facts_quiet; try assumption. rewrite P9. reflexivity.
-  - apply facts_quiet; try assumption. rewrite P9. reflexivity.
+  - apply facts_quiet; try assumption; [rewrite P9; reflexivity|]. rewrite P9. pose proof (pend_range (f_state f)). cbn. lia.
+  - apply facts_quiet; try assumption; [rewrite P9; reflexivity|]. rewrite P9. pose proof (pend_range (f_state f)). cbn. lia.
 Qed.
 
 Lemma poll_inner_facts f now busy (w : W) f' w' :
@@ -2002,7 +2364,8 @@ Lemma poll_inner_facts f now busy (w : W) f' w' :
 Proof.
   intros H. apply poll_inner_cases in H. destruct H as [H|[f3 [w3 [Hpre [Hle Hd]]]]].
   - exact (pre_rel_facts _ _ _ _ _ _ H).
-  - exact (facts_entry _ _ _ _ _ _ _ Hpre Hle (dispatch_facts _ _ _ _ _ Hd)).
+  - assert (Hnp : f_state f3 <> PassiveIdle) by (intros E; unfold dispatch in Hd; rewrite E in Hd; discriminate Hd).
+    exact (facts_entry _ _ _ _ _ _ _ Hpre Hle Hnp (dispatch_facts _ _ _ _ _ Hd)).
 Qed.
 
 Lemma poll_unfold f now pin (apps : list A) f' o apps' calls :
@@ -2048,7 +2411,18 @@ Theorem poll_gap_state_frame f now pin (apps : list A) f' o apps' calls :
   poll ops f now pin apps = Ok (f', o, apps', calls) -> f_gap f' = f_gap f \/ gap_change f f'.
 Proof.
   intros H. apply poll_unfold in H. destruct H as [w' [Hi _]].
-  apply poll_inner_facts in Hi. destruct Hi as [_ [_ [_ F4]]]. exact F4.
+  apply poll_inner_facts in Hi. destruct Hi as [_ [_ [_ [F4 _]]]]. exact F4.
+Qed.
+
+(* The GAP sweep poll by poll: a poll resets the picture (offline, back to listening, claim token), or
+   transmits a GAP request after exactly one GAP step, or transmits the token of the visit (after the GAP
+   step of the visit if that was still due), or does neither and leaves the GAP state alone (except for the
+   end of the sweep of the post-claim scan). *)
+Theorem poll_sweep_rel f now pin (apps : list A) f' o apps' calls :
+  poll ops f now pin apps = Ok (f', o, apps', calls) -> sw_rel f f' [] calls (tx o).
+Proof.
+  intros H. apply poll_unfold in H. destruct H as [w' [Hi [-> [_ ->]]]]. cbn [tx].
+  apply poll_inner_facts in Hi. destruct Hi as [_ [_ [_ [_ F5]]]]. exact (F5 eq_refl).
 Qed.
 
 Theorem poll_keeps_parameters f now pin (apps : list A) f' o apps' calls :
